@@ -1635,6 +1635,13 @@ def is_transparent(path):
                           r'Index<core::ops::RangeFull>>::index$|::borrow$|::as_str$', p))
 
 
+def _lname(x):
+    """a local id or the pseudo-local of a field-wise definition (('fld', local, field)) as text"""
+    if isinstance(x, tuple) and len(x) == 3 and x[0] == 'fld':
+        return '_%s.%s' % (x[1], str(x[2]).rsplit('.', 1)[-1])
+    return x
+
+
 def render(e, transparent=True, depth=0):
     """Canonical, line-number-free text of an expression (used in keys and reports)."""
     if depth > 25:
@@ -1684,12 +1691,12 @@ def render(e, transparent=True, depth=0):
     if k == 'fnitem':
         return 'fn ' + short(e[1])
     if k == 'loop':
-        return 'loopvar[%s]' % (e[2] or e[1])
+        return 'loopvar[%s]' % (_lname(e[2] or e[1]),)
     if k == 'undef':
-        return 'undef[%s]' % (e[2] or e[1])
+        return 'undef[%s]' % (_lname(e[2] or e[1]),)
     if k == 'repeat':
         return '[%s; n]' % r(e[1])
-    return '⊤(%s)' % (e[1] if len(e) > 1 else k)
+    return '⊤(%s)' % (_lname(e[1]) if len(e) > 1 else k,)
 
 
 ITER_SAME = re.compile(r'IntoIterator>::into_iter$|slice::<impl \[T\]>::iter(_mut)?$|Vec::<.*>::iter(_mut)?$|Iterator>?::(by_ref|cloned|copied|peekable|fuse)$|'
@@ -1850,7 +1857,8 @@ class Facts:
         if not complete:
             raise AnchorLost('fact base %s is truncated' % path)
         if splice:
-            from .inline import splice_new_helpers
+            from .inline import splice_new_helpers, lower_primitive_operator_calls
+            self.lowered_ops = lower_primitive_operator_calls(self, Body)
             self.splice_report = splice_new_helpers(self, Body)
             from .inline import desugar_table_searches
             self.table_report = desugar_table_searches(self, Body)
